@@ -78,8 +78,8 @@ func (vm *varyMatcher) varyHeadersMatchOne(entry *ResponseRef, reqHeader http.He
 		// an empty value is comparable and means "no variation"
 		reqValue := ""
 		if len(reqValues) > 0 {
-			// NOTE: The policy of this cache is to use just the first header line
-			reqValue = vm.hvn.NormalizeHeaderValue(field, reqValues[0])
+			// Several field lines are one comma-separated value (RFC 9110 §5.3)
+			reqValue = vm.hvn.NormalizeHeaderValue(field, strings.Join(reqValues, ", "))
 		}
 		if reqValue != value {
 			return false
